@@ -26,7 +26,14 @@ import (
 	"verif/harness/sim"
 )
 
-const verifDir = "/verif"
+// verifDir is the root of the verification tree this binary belongs to (the
+// directory vcheck.sh lives in); /verif unless run from a snapshot.
+var verifDir = func() string {
+	if d := os.Getenv("VERIF_DIR"); d != "" {
+		return d
+	}
+	return "/verif"
+}()
 const repoDir = "/repo"
 
 type propCfg struct {
@@ -212,6 +219,7 @@ func run(id, mode string, cfg propCfg, seed uint64, runDir string) int {
 				defer wg.Done()
 				of := filepath.Join(runDir, fmt.Sprintf("out-%d-%d.json", sd, w))
 				cmd := exec.Command(bin, "-prop", id, "-tier", tier, "-seed", fmt.Sprint(sd),
+					"-replaydir", filepath.Join(verifDir, "replays"), "-known", filepath.Join(verifDir, "known_findings.json"),
 					"-first", fmt.Sprint(w), "-stride", fmt.Sprint(workers), "-count", fmt.Sprint(count),
 					"-deadline", perSeedDL.String(), "-out", of)
 				cmd.Env = append(os.Environ(), "GOMAXPROCS=2", "VERIF_RW_DIR="+filepath.Join(runDir, "rw"))
